@@ -399,6 +399,7 @@ impl<C: Config> Engine<C> {
             return Err(CyclicError);
         }
 
+        crate::verif_point!("cl.wait", Some(callee), 0);
         notified.await;
         crate::verif_point!("cl.woken", Some(callee), 0);
 
@@ -544,6 +545,7 @@ impl<C: Config, Q: Query> Snapshot<C, Q> {
                 drop(self);
 
                 // wait for the existing computing to finish
+                crate::verif_point!("cl.wait", Some(&qid), 0);
                 notified_owned.await;
                 crate::verif_point!("cl.woken", Some(&qid), 0);
 
